@@ -89,6 +89,9 @@
 ; ridx is monotone, total on 0..blen, and counts the units that start before an offset
 (assert (forall ((b Int) (o Int)) (! (=> (and (<= 0 o) (<= o (blen b))) (and (<= 0 (ridx b o)) (<= (ridx b o) (nr b)) (<= (ridx b o) o))) :pattern ((ridx b o)))))
 (define-fun isbound ((b Int) (o Int)) Bool (and (<= 0 o) (<= o (blen b)) (= (roff b (ridx b o)) o)))
+; Go's segmentation of a byte string never swallows an ASCII byte into a longer unit: the position of a byte below 128
+; and the position after it are boundaries (continuation bytes are 0x80..0xBF)
+(assert (forall ((b Int) (o Int)) (! (=> (and (<= 0 o) (< o (blen b)) (< (sbyte b o) 128)) (and (isbound b o) (isbound b (+ o 1)))) :pattern ((sbyte b o)))))
 (define-fun gs.aligned ((s Str)) Bool (and (isbound (sbase s) (slo s)) (isbound (sbase s) (shi s))))
 (define-fun gs.runes ((s Str)) Int (- (ridx (sbase s) (shi s)) (ridx (sbase s) (slo s))))
 ; unit value (rune) at unit index
